@@ -285,7 +285,7 @@ example : WholeStrings [.ins [97] 1 false false, .ins [98, 99] 2 true false, .du
   simp only [List.mem_cons, List.not_mem_nil, or_false] at ho
   rcases ho with h | h | h | h <;> subst h <;> simp
 
-/-- The full statement — by-length inserts of any prefix, any hash function — is **false** (§6 F50): with a hash that
+/-- The full statement — by-length inserts of any prefix, any hash function — is **false** (§6 F110): with a hash that
 makes the prefix `"ab"` collide with the buffer `"abX"` held by the dictionary, the `lydict_insert(ctx, "abX", 2)` that
 enlarges the table returns `LY_ENOTFOUND` instead of `"ab"`: while the new record still points to the caller's buffer
 `lyht_resize` compares it with `strcmp`, finds it "already present" and drops it. -/
@@ -299,7 +299,7 @@ theorem dict_refcount_spec_fails :
     (init_inv _ 8) (by simp [AllOps, OpWf])
   revert this; decide
 
-/-- With the candidate repair `fixes/F50.diff` (`Dict.insertFixed`: look up, copy, then `lyht_insert_no_check`) the full
+/-- With the candidate repair `fixes/F110.diff` (`Dict.insertFixed`: look up, copy, then `lyht_insert_no_check`) the full
 statement holds: every hash function, every prefix length, no collision hypothesis. -/
 theorem dict_refcount_spec_fixed (H : Bytes → UInt32) (d : Dict) (hd : DInv H d) (ops : List DOp)
     (hw : AllOps OpWf (refs d) ops) :
